@@ -322,6 +322,18 @@ TIES = {
             "the seven interpreted regex leaves (pattern texts and flags asserted) and the thirteen junk patterns as the "
             "model's classifier record, str/list/dict methods, ChangeBlock construction as the model's empty block, "
             "warnings.warn as a recorded kind"),
+    "C07": ("Props/C07Tie.v", 20, "DebFile.__init__ with its nested compressed_part_name (which member is the control part, "
+            "which the data part, every DebError), DebPart.__normalize_member / has_file / get_file / get_content / "
+            "__contains__ / __getitem__, DebControl.scripts / debcontrol / md5sums and the delegating DebFile methods "
+            "(over any payload type with the tar/codec oracle of Props/C07.v)", "the ArFile base class over the member "
+            "list, tgz() as the model's oracle, sets of names as duplicate-free lists, bytes methods; constants from "
+            "Gen/DebConsts.v"),
+    "C12": ("Props/C12Tie.v", 18, "_multivalued.get_as_string (the writer), PdiffIndex/Release._fixed_field_lengths and "
+            "_get_size_field_length, Release.set_size_field_behavior, _multivalued.__init__ (the reader, on every mapping), "
+            "validate_input, is_multi_line and the inherited __setitem__ — for every one of the five classes' tables "
+            "(regenerated, Gen/MvTables.v)", "the paragraph object and the dynamic values (str / one mapping / list of "
+            "mappings) as the model's types, str/list built-ins, the class dispatch of _fixed_field_lengths, the bound "
+            "method updater_method as two hand-written cases"),
     "C13": ("Props/C13Tie.v", 9, "PkgRelation.str with its nested pp_arch / pp_restrictions / pp_atomic_dep, and "
             "PkgRelation.parse_relations with its nested parse_archs / parse_restrictions / parse_rel (warnings as a "
             "threaded counter): same string, same structure and warning count, or same error kind",
@@ -364,7 +376,59 @@ TIES["C19"] = ("Props/C18Tie.v", 5, "patches_from_ed_script and patch_lines, thr
                "as for C18")
 
 
+# "agree implies holds" (session 4): on every case of the check on which the implementation behaved like the model,
+# the property as holds judges it is true — the formal bridge between the correspondence and the property theorems.
+AGREE = {
+    "C01": "", "C03": "", "C08": "", "C09": "", "C14": "", "C16": "", "C17": "", "C18": "", "C20": "",
+    "C06": " on judged cases (judged_case: the operation sequence stays inside the property's alphabet)",
+    "C02": " under a computable side condition (the case type does not tie the written input to the paragraphs it was built from)",
+    "C04": " under the computable side condition judged (the input is a form of the text; public version objects "
+           "consistent) — true on every generated case; this one theorem depends on the kernel's primitive 63-bit "
+           "integers (PrimInt63.int/lsr/land/leb/eqb: the case literals are packed), which Print Assumptions lists",
+    "C05": " under a computable side condition (holds also reads the re-parse and the alternative-spelling lookups, "
+           "which agree does not compare)",
+    "C13": " under the computable side condition judged (the Packages/Sources accessor observation, which the model "
+           "does not cover); proved weakest",
+    "C15": " under the computable side condition judged (plain line input, max_blocks != 0, consistent public "
+           "versions) — true on every generated case; the strictness half needs no condition; PrimInt63 primitives as for C04",
+    "C19": " (C19_agree_implies_safe, C19_agree_intact_implies_holds)",
+}
+AGREE_TEXT = "  BRIDGE: agree c = true -> holds c = true is proved for every case of the check{cond}."
+
+
+def _count_theorems(rel):
+    import re
+    try:
+        text = open(os.path.join(HERE, "coq", rel), encoding="utf-8").read()
+    except OSError:
+        return None
+    # strip comments
+    out, depth, i = [], 0, 0
+    while i < len(text):
+        if text.startswith("(*", i):
+            depth += 1
+            i += 2
+        elif text.startswith("*)", i) and depth:
+            depth -= 1
+            i += 2
+        else:
+            if depth == 0:
+                out.append(text[i])
+            i += 1
+    return len(re.findall(r"^\s*(Theorem|Corollary)\s", "".join(out), re.M))
+
+
 def main():
+    import re
+    for pid, c in CHECKS.items():
+        n = _count_theorems("Props/%s.v" % pid)
+        if n is not None:
+            c["text"] = re.sub(r"\(Props/%s\.v, \d+" % pid, "(Props/%s.v, %d" % (pid, n), c["text"])
+            if pid in ("C04", "C15"):
+                c["text"] = c["text"].replace("all Closed under the global context", "all Closed under the global context "
+                                              "except the bridge theorem named below")
+        if pid in AGREE:
+            c["text"] += AGREE_TEXT.format(cond=AGREE[pid])
     for pid, (f, n, funs, prims) in TIES.items():
         c = CHECKS[pid]
         c["text"] += TIE_TEXT.format(file=f, n=n, funs=funs, prims=prims)
